@@ -189,6 +189,8 @@ def project_call(c: Dict[str, Any], tid: int, api: Optional[Dict[str, Any]] = No
     bounds = [s[0] for s in segs]
     vecs = [s[1] for s in segs] + [(0.0, 0.0, 0.0)]
     Klo, Khi = multiples_le(maxr, step)
+    if api.get("default_step", False) and rec and maxr > 0:
+        Klo = Khi = 11      # no step given: "one tenth of the range (11 rows)" - the statement decides, whatever ten float steps sum to
     iters = c["iters"]
     all_rows = [r for it in iters for r in it["rows"]]
     term_row = c["raise"]["row"] if c["raise"] else None
